@@ -221,10 +221,16 @@ def editApplies (k : Model.GKind) (e : Model.GEdit) (o : Model.GObj) : Bool :=
   | .tag (.check _) => false
   | .tag _ => o.hasTags
 
-def runGen (k : Model.GKind) (a : Model.GArgs) (edits : List Model.GEdit) (bufLen : Option Nat) : String :=
+/-- the caller may set the flag octet of the frame control directly in the object's header (there is no setter):
+the serialisers copy the header as it is -/
+def withFcFlags (o : Model.GObj) : Option Nat → Model.GObj
+  | some n => { o with fc := [o.fc.getD 0 0, UInt8.ofNat n] }
+  | none => o
+
+def runGen (k : Model.GKind) (a : Model.GArgs) (edits : List Model.GEdit) (bufLen : Option Nat) (fcFlags : Option Nat := none) : String :=
   match Model.create k a with
   | .ok (r, o0) => Id.run do
-    let mut o := o0
+    let mut o := withFcFlags o0 fcFlags
     let mut er : Int := 0
     for e in edits do
       if editApplies k e o then
@@ -253,7 +259,7 @@ def specArgsOf (a : Model.GArgs) : Spec.Args :=
     country := a.country, mrp := a.mrp, mtx := a.mtx, txu := a.txu, nf := a.nf, sec := a.clk.sec, nsec := a.clk.nsec }
 
 /-- the property's expectation for a gen line, or "any" where the property fixes nothing -/
-def specGen (mk : Model.GKind) (k : Spec.Kind) (a : Model.GArgs) (edits : List Model.GEdit) (bufLen : Option Nat) : String := Id.run do
+def specGen (mk : Model.GKind) (k : Spec.Kind) (a : Model.GArgs) (edits : List Model.GEdit) (bufLen : Option Nat) (fcFlags : Option Nat := none) : String := Id.run do
   let sa := specArgsOf a
   if sa.ssid.length > 255 then return "any"
   let mut elems := Spec.initialElems k sa
@@ -281,7 +287,10 @@ def specGen (mk : Model.GKind) (k : Spec.Kind) (a : Model.GArgs) (edits : List M
           | .remove _ => -999999       -- the return value of a removal is not fixed by the property
           | _ => 0
       | none => return "any"
-  let enc := Spec.frame k sa elems details
+  let enc0 := Spec.frame k sa elems details
+  let enc := match fcFlags with
+    | some n => enc0.set 1 (UInt8.ofNat n)      -- the second frame-control octet is the caller's
+    | none => enc0
   let shown := s!"ret=0 edit={if edits.isEmpty then "0" else if er == -999999 then "*" else toString er} len={enc.length}"
   match bufLen with
   | some n => if n < enc.length then return shown ++ " dump=err touched=0" else return shown ++ s!" dump={enc.length}/{toHex enc} touched=0"
@@ -492,9 +501,9 @@ def runTagOpsH (σ : Nat → Bool) (ops : List Model.TagOp) : M String := do
   return if outs.isEmpty then "nop" else " | ".intercalate outs
 
 open LWV.Heap in
-def runGenH (σ : Nat → Bool) (k : Model.GKind) (a : Model.GArgs) (edits : List Model.GEdit) (bufLen : Option Nat) : M String := do
+def runGenH (σ : Nat → Bool) (k : Model.GKind) (a : Model.GArgs) (edits : List Model.GEdit) (bufLen : Option Nat) (fcFlags : Option Nat := none) : M String := do
   let (r, g0) ← createH σ k a
-  let mut g := g0
+  let mut g := { g0 with o := withFcFlags g0.o fcFlags }
   let mut er : Int := 0
   for e in edits do
     if editApplies k e g.o then
@@ -596,7 +605,7 @@ def stepAlloc (k : Option Nat) (fromOn : Bool) (inner : List String) : String :=
       let kv := kvOf rest
       let ops := (kv.lookup "ops").getD "-"
       match (if ops == "-" then some [] else (ops.splitOn ",").mapM parseGEdit) with
-      | some edits => run (runGenH σ mk (gargsOf kv) edits ((kv.lookup "buf").bind parseNat))
+      | some edits => run (runGenH σ mk (gargsOf kv) edits ((kv.lookup "buf").bind parseNat) ((kv.lookup "fcflags").bind parseNat))
       | none => "bad-op"
     | none => "bad-op"
   | ["cls", rt, h] => match ofHex h with | some bs => run (stepClsH σ (rt == "1") bs) | none => "bad-op"
@@ -728,7 +737,9 @@ def step (line : String) : String :=
       let edits := if ops == "-" then some [] else (ops.splitOn ",").mapM parseGEdit
       let bufLen := (kv.lookup "buf").bind parseNat
       match edits with
-      | some edits => runGen mk a edits bufLen ++ " ;; spec=" ++ specGen mk sk a edits bufLen
+      | some edits =>
+        let ff := (kv.lookup "fcflags").bind parseNat
+        runGen mk a edits bufLen ff ++ " ;; spec=" ++ specGen mk sk a edits bufLen ff
       | none => "bad-op"
     | none => "bad-op"
   | ["rtgrange", lo, hi] =>
